@@ -13,3 +13,4 @@ pub mod function;
 pub mod variable;
 pub mod iterloop;
 pub mod typetext;
+pub mod queryimpl;
